@@ -1103,7 +1103,7 @@ KNOWN_MATCHERS = {}
 
 def tier_config(tier):
     if tier == "thorough":
-        return {"runs": 400000, "chunk": 100, "determinism_plans": 60, "max_violations": 6,
+        return {"runs": 200000, "chunk": 100, "determinism_plans": 60, "max_violations": 6,
                 "min_budget": 400, "wall_limit_s": 3 * 3600, "sweep_hashseeds": 32,
                 "sweep_orders": 8, "opts": {"shorthand": True}}
     return {"runs": 5000, "chunk": 25, "determinism_plans": 20, "max_violations": 4,
@@ -1356,11 +1356,16 @@ def systematic_jobs(seed, tier):
     if tier == "thorough":
         pairs = list(range(len(SYS_PAIRS)))
         nsl = 4
-        fams = ["A", "B", "C", "Aop", "Apartial"]
-    else:
-        pairs = [seed % len(SYS_PAIRS)]
-        nsl = 8
-        fams = ["A", "B", "C"]
+        fams = ["A", "B", "C", "Apartial"]
+        jobs = [{"family": f, "pair": p, "slice": s, "nslices": nsl}
+                for f in fams for p in pairs for s in range(nsl)]
+        # opcode granularity has about five times as many positions: three pairs
+        jobs += [{"family": "Aop", "pair": (seed + d) % len(SYS_PAIRS), "slice": s, "nslices": 16}
+                 for d in range(3) for s in range(16)]
+        return jobs
+    pairs = [seed % len(SYS_PAIRS)]
+    nsl = 8
+    fams = ["A", "B", "C"]
     return [{"family": f, "pair": p, "slice": s, "nslices": nsl}
             for f in fams for p in pairs for s in range(nsl)]
 
